@@ -7,7 +7,9 @@ def oracle_obs(tier):
     return [Ob('oracle_rd_succ_holds', profiles=('on',), note='oracle sanity'),
             Ob('oracle_rd_monotone_holds', profiles=('on',), note='oracle sanity', solvers=('cvc5', 'z3new')),
             Ob('oracle_rd_anchors_holds', profiles=('on',), note='oracle sanity'),
-            Ob('oracle_ylen_holds', profiles=('on',), note='oracle sanity')]
+            Ob('oracle_ylen_holds', profiles=('on',), note='oracle sanity'),
+            Ob('oracle_wd_ymd_holds', profiles=('on',), note='oracle sanity'),
+            Ob('oracle_floor_helpers_holds', profiles=('on',), note='oracle sanity', opts={'expand_floor_helpers': True}, dom={'a': (-2**62, 2**62), 'b': (-2**100, 2**100)})]
 
 def c01(tier):
     obs = oracle_obs(tier)
@@ -20,8 +22,58 @@ def c01(tier):
             Ob('c01_roundtrip_holds', abstractions=['days_to_date'])]
     return obs
 
+def fns_of(prefix, text_file):
+    import re, os
+    t = open(os.path.join(os.path.dirname(os.path.abspath(__file__)), 'props', text_file)).read()
+    return sorted(set(re.findall(r'\b(%s\w+_(?:holds|mustpanic))\b' % prefix, t)))
+
+def c02(tier):
+    A = ['days_to_date']
+    B = ['days_to_date/bound']
+    months = [{'m': (k, k)} for k in range(1, 13)]
+    eras = [{'y': (1, 5_879_612)}, {'y': (-5_879_612, -401)}, {'y': (-400, -1)}]
+    return oracle_obs(tier) + [Ob('c01_days_to_date_holds', slices=[{'d': (-2**31, -1)}, {'d': (0, 2**31 - 1)}], note='contract of days_to_date used below'),
+            Ob('c02_date_weekday_holds'), Ob('c02_wday_monday_first_holds'), Ob('c02_datetime_weekday_holds'),
+            Ob('c02_day_of_year_holds', abstractions=A), Ob('c02_datetime_day_of_year_holds', abstractions=['days_to_date/uf', 'days_to_doy/uf']),
+            Ob('c02_quarter_holds', abstractions=A),
+            Ob('c02_set_day_of_year_holds', abstractions=A),
+            # week of year at full range = base 400-year cycle + invariance of library and oracle under a one-cycle shift (induction over cycles is the meta-step)
+            Ob('c02_d2d_period_holds', note='week of year: calendar decomposition invariant under a 146097-day shift'),
+            Ob('c02_wyear_period_holds', abstractions=B, dom={'d': (-2**31, 2**31 - 1 - 146_097)}, slices=[dict(e, **m) for e in eras for m in months], note='week of year: library invariant under the shift'),
+            Ob('c02_wyear_base_holds', abstractions=B, slices=months, note='week of year: base cycle 2000..=2399'),
+            Ob('c02_spec_week_period_holds', slices=[dict(e, **m) for e in eras for m in months], profiles=('on',), note='week of year: oracle invariant under the shift'),
+            Ob('c02_week_of_year_holds', abstractions=A, dom={'d': (-40_000, 40_000) if tier != 'thorough' else (-600_000, 900_000)}, note='week of year: direct end-to-end cross-check on a window around 0001-01-01')]
+
+def c03(tier):
+    return [Ob(f) for f in fns_of('c03_', 'c03.rs')]
+
+def c04(tier):
+    return [Ob(f) for f in fns_of('c04_', 'c04.rs')]
+
+def c06(tier):
+    return [Ob(f) for f in fns_of('c06_', 'c06.rs')]
+
+def c08(tier):
+    return [Ob(f) for f in fns_of('c08_', 'c08.rs')]
+
+def c10(tier):
+    A = ['days_to_date']
+    return [Ob(f, abstractions=['days_to_date/uf', 'days_to_doy/uf'] if 'date_getters' in f else ()) for f in fns_of('c10_', 'c10.rs')]
+
+def c15(tier):
+    A = ['days_to_date']
+    return [Ob('c01_days_to_date_holds', slices=[{'d': (-2**31, -1)}, {'d': (0, 2**31 - 1)}], note='contract of days_to_date used below')] + \
+           [Ob(f, abstractions=A if '_date_set_' in f else ()) for f in fns_of('c15_', 'c15.rs')]
+
 PROPS = {
     'C01': {'obligations': c01,
             'bounds': 'all 2^32 day numbers; all (year, month, day) in i32 x u32 x u32; month loop unwound 16 with unwinding assertion',
             'outside': 'nothing inside the property statement; formatting of error messages is not encoded'},
+    'C02': {'obligations': c02, 'bounds': 'all 2^32 day numbers; all offsets in (-24h, 24h); all u32 day-of-year arguments', 'outside': 'the rendering of w/q/e/D values into text (std formatting)'},
+    'C03': {'obligations': c03, 'bounds': 'all i64 timestamps; all pairs of (day, nanos, offset)', 'outside': ''},
+    'C06': {'obligations': c06, 'bounds': 'all pairs of (day, nanos, offset); all u32 counts for the add-inverse', 'outside': 'months/years (C07)'},
+    'C08': {'obligations': c08, 'bounds': 'all times of day x all u32 counts; all pairs of Times; all Durations', 'outside': ''},
+    'C10': {'obligations': c10, 'bounds': 'all instants with a one-day margin at the range ends x all offsets in (-24h, 24h)', 'outside': 'the x/X zone text (C11); Offset::Local (reads /etc/localtime: C18)'},
+    'C15': {'obligations': c15, 'bounds': 'full i32/u32/u64 domain of every parameter', 'outside': 'the rendered message text (std formatting of the tracked min/max/value fields)'},
+    'C04': {'obligations': c04, 'bounds': 'all instants x all u32 counts; all Durations (u64 secs, u32 nanos < 10^9)', 'outside': ''},
 }
